@@ -379,7 +379,10 @@ func (w *World) auditRead(ctx context.Context, query string) {
 	}
 	// ledger scoping: every reference to a table of the bucket needs its own ledger predicate
 	reRef := regexp.MustCompile(`(?i)\b(?:from|join)\s+(?:\(\s*)?"?` + regexp.QuoteMeta(l.Bucket) + `"?\."?(\w+)"?`)
-	reScope := regexp.MustCompile(`(?i)\bledger"?\s*=\s*'` + regexp.QuoteMeta(strings.ReplaceAll(l.Name, "'", "''")) + `'`)
+	// a reference is scoped by `ledger = '<name>'`, `ledger in ('<name>')`, or by an equality with the ledger column
+	// of another (scoped) relation
+	name := regexp.QuoteMeta(strings.ReplaceAll(l.Name, "'", "''"))
+	reScope := regexp.MustCompile(`(?i)\bledger"?\s*(?:=\s*'` + name + `'|in\s*\(\s*'` + name + `'\s*\)|=\s*"?\w+"?\."?ledger"?\b)`)
 	refs := reRef.FindAllStringSubmatch(q, -1)
 	scoped := len(reScope.FindAllString(q, -1))
 	w.mu.Lock()
